@@ -151,6 +151,24 @@ fn dictionary(c: &mut dyn Choices, n: usize) -> Vec<(Ev, String)> {
     v
 }
 
+/// (evaluator, expression) pairs whose very first evaluation in a process is raced by 16 threads in the `cold-start`
+/// sub-check: anything initialised lazily on first use (tables, caches, once-cells) is exercised exactly there
+pub fn cold_start_exprs() -> Vec<(Ev, &'static str)> {
+    let mut v = Vec::new();
+    for ev in Ev::ALL {
+        let xs: Vec<&str> = match ev {
+            Ev::I64 => vec!["20!", "19!/18!", "2^62", "gcd(12,18)", "lcm(4,6)", "sqrt(1000000)", "min(3,1,2)", "7%3", "1<<40", "med(5,1,4)"],
+            Ev::Cpx => vec!["(1+2i)*(3-i)", "sqrt(-4)", "exp(i*pi)", "sin(1+i)", "ln(-1)", "i^i", "abs(3+4i)", "2^10"],
+            Ev::Dec => vec!["20!", "0.5!", "w(1)", "exp(1)", "ln(2)", "sqrt(2)", "pi*e", "0.1+0.2", "med(5,1,4)", "27!/26!", "2^64"],
+            _ => vec!["170!", "2*150!", "169!/168!", "20!", "0.5!", "(-1.5)!", "w(1)", "lambert_w(1000)", "sin(1)", "pi*e", "sqrt(2)", "2^0.5", "ln(2)", "med(5,1,4)", "100!/98!", "exp(1)", "atan2(1,2)", "ilog(100,10)"],
+        };
+        for x in xs {
+            v.push((ev, x));
+        }
+    }
+    v
+}
+
 fn parse_history(aux: &[String]) -> Vec<Key> {
     aux.iter()
         .filter_map(|l| {
@@ -168,16 +186,27 @@ impl Prop for C16Prop {
         "C16"
     }
     fn rule(&self) -> String {
-        "Cases are call histories: 200..1000 (quick) / up to 5000 (thorough) calls (evaluator, expression, placeholder) drawn from a per-history dictionary of 12..60 expressions (well-formed with and without @, error-producing, malformed for the parser and for the lexer (1.2.3, 1..5, stray characters), aggregates around failing arguments and around nested aggregates, whitespace of several kinds sprinkled into a third of the entries, non-ASCII spellings (π, ², ³) in a quarter, long aggregate lists with equal values in different spellings, one call in six followed by a same-length sibling of its text (one character changed near the end) under the same placeholder, plus 1..3 argument sweeps: one function - Lambert W weighted - at 3..6 nearby arguments) so that keys repeat, each reused with changing placeholders and interleaved across all five evaluators; the whole history is one generated value (a choice sequence) and shrinks as one. Oracle (no-state model): every occurrence of a key must return, bit for bit, the outcome of its isolated first-time evaluation, computed by a fresh child process making exactly that one call. The history is run sequentially in-process, then replayed concurrently by 16 threads each starting at a different rotation, then every thread evaluates the deepest inputs 256 characters allow at the same time as the others (process-wide counters), then hammers one expression with different placeholders. One call in five is followed by an immediate repeat of the same expression with a placeholder pair that compares equal but differs (0.0/-0.0, 2/2.00, Integer 3/Float 3.0). Sub-check after-failures: for every evaluator, every kind of failing call (lexer, parser, evaluation error under every operator and function form) is made 1100 times in a row and a set of plain expressions must then answer as in a fresh process. non-trivial = an occurrence whose expression occurred earlier in the history with a different placeholder or evaluator, or that directly follows an Err-producing call; distinct by (key, predecessor key). evaluations counts library calls (sequential + concurrent + child processes).".into()
+        "Cases are call histories: 200..1000 (quick) / up to 5000 (thorough) calls (evaluator, expression, placeholder) drawn from a per-history dictionary of 12..60 expressions (well-formed with and without @, error-producing, malformed for the parser and for the lexer (1.2.3, 1..5, stray characters), aggregates around failing arguments and around nested aggregates, whitespace of several kinds sprinkled into a third of the entries, non-ASCII spellings (π, ², ³) in a quarter, long aggregate lists with equal values in different spellings, one call in six followed by a same-length sibling of its text (one character changed near the end) under the same placeholder, plus 1..3 argument sweeps: one function - Lambert W weighted - at 3..6 nearby arguments) so that keys repeat, each reused with changing placeholders and interleaved across all five evaluators; the whole history is one generated value (a choice sequence) and shrinks as one. Oracle (no-state model): every occurrence of a key must return, bit for bit, the outcome of its isolated first-time evaluation, computed by a fresh child process making exactly that one call. The history is run sequentially in-process, then replayed concurrently by 16 threads each starting at a different rotation, then every thread evaluates the deepest inputs 256 characters allow at the same time as the others (process-wide counters), then hammers one expression with different placeholders. One call in five is followed by an immediate repeat of the same expression with a placeholder pair that compares equal but differs (0.0/-0.0, 2/2.00, Integer 3/Float 3.0). Sub-check cold-start: a fresh child process starts 16 threads that make the same call as their very first one at the same moment (every lazily initialised table or cache is raced exactly once per process) and then the other cold-start expressions in rotated order; every outcome must be the isolated one. Sub-check after-failures: for every evaluator, every kind of failing call (lexer, parser, evaluation error under every operator and function form) is made 1100 times in a row and a set of plain expressions must then answer as in a fresh process. non-trivial = an occurrence whose expression occurred earlier in the history with a different placeholder or evaluator, or that directly follows an Err-producing call; distinct by (key, predecessor key). evaluations counts library calls (sequential + concurrent + child processes).".into()
     }
     fn assumptions(&self) -> Vec<String> {
         vec!["thread interleavings are whatever the OS produces under 16-way contention (not enumerated): the crate uses no synchronisation primitive a schedule explorer could intercept".into()]
     }
     fn subs(&self, tier: Tier) -> Vec<Sub> {
         let n: u64 = Ev::ALL.iter().map(|ev| (failing_templates(*ev).len() * probe_expressions(*ev).len()) as u64).sum();
-        vec![Sub { name: "history", kind: SubKind::Random { cases: tier.pick(48, 1600), len: tier.pick(3000, 12000) as usize } }, Sub { name: "after-failures", kind: SubKind::Enum { count: n } }]
+        vec![
+            Sub { name: "history", kind: SubKind::Random { cases: tier.pick(48, 1600), len: tier.pick(3000, 12000) as usize } },
+            Sub { name: "after-failures", kind: SubKind::Enum { count: n } },
+            Sub { name: "cold-start", kind: SubKind::Enum { count: cold_start_exprs().len() as u64 * tier.pick(4, 40) } },
+        ]
     }
-    fn gen_enum(&self, _sub: &str, mut idx: u64, _tier: Tier) -> Option<Case> {
+    fn gen_enum(&self, sub: &str, mut idx: u64, _tier: Tier) -> Option<Case> {
+        if sub == "cold-start" {
+            let xs = cold_start_exprs();
+            let (ev, x) = xs[idx as usize % xs.len()];
+            let mut case = Case::new(ev, x.to_string(), Val::default_for(ev));
+            case.aux = vec!["cold-start".into(), (idx as usize / xs.len()).to_string()];
+            return Some(case);
+        }
         for ev in Ev::ALL {
             let (ts, ps) = (failing_templates(ev), probe_expressions(ev));
             let n = (ts.len() * ps.len()) as u64;
@@ -248,6 +277,43 @@ impl Prop for C16Prop {
         Some(case)
     }
     fn check(&self, _sub: &str, case: &Case, sc: &mut ShardCtx) -> Result<(), Failure> {
+        if case.aux.first().map(|s| s == "cold-start").unwrap_or(false) {
+            // a fresh process in which 16 threads make this call as their very first one at the same moment, then all the
+            // other cold-start expressions in rotated order; every outcome must be the isolated one
+            let exe = match std::env::current_exe() {
+                Ok(e) => e,
+                Err(_) => return Ok(()),
+            };
+            let out = match std::process::Command::new(exe).args(["coldstart", case.ev.name(), &case.input]).output() {
+                Ok(o) if o.status.success() => String::from_utf8_lossy(&o.stdout).to_string(),
+                _ => {
+                    return Err(Failure::new("history/cold-start/child-died", "a child process that prints its outcomes", "the child process did not finish normally"));
+                }
+            };
+            let mut n = 0u64;
+            for line in out.lines() {
+                let mut it = line.splitn(4, '\t');
+                let (t, evn, ex, got) = match (it.next(), it.next(), it.next(), it.next()) {
+                    (Some(a), Some(b), Some(c), Some(d)) => (a, b, c, d),
+                    _ => continue,
+                };
+                let ev = match Ev::from_name(evn) {
+                    Some(e) => e,
+                    None => continue,
+                };
+                n += 1;
+                let key: Key = (ev, Val::default_for(ev).enc(), ex.to_string());
+                if let Some(want) = isolated(&key) {
+                    if want != got {
+                        return Err(Failure::new(format!("history/cold-start/{}", evn), format!("{} (isolated first-time evaluation of {:?})", want, ex), format!("{} on thread {} of a fresh process whose 16 threads started with {:?}", got, t, case.input)));
+                    }
+                }
+            }
+            sc.evals(n);
+            sc.class("cold-start");
+            sc.nontrivial(case.hash(), || serde_json::json!({"evaluator": case.ev.name(), "first_call_of_16_threads": case.input, "outcomes_compared": n}));
+            return Ok(());
+        }
         if case.aux.first().map(|s| s == "after-failures").unwrap_or(false) {
             // 1100 failing calls of one kind, then a plain call: it must answer as in a fresh process
             let key: Key = (case.ev, case.ph.enc(), case.input.clone());
